@@ -441,13 +441,19 @@ def check_single(ctx, drv, st, t, out, shape_assignments):
                  sample=False)
         ctx.count("single:" + ("diag" if rep else "nodiag") + ("+sum" if len(out) < len(syms) else ""))
         bad = False
-        for kind in ("single3", "einsum1"):
-            ok, detail, cls = run_real(dict(base, kind=kind))
-            if not ok:
-                bad = True
-                ctx.violation({"site": "contract.einsum/1" if kind == "einsum1" else "_einsum_single 3-step",
-                               "class": cls}, dict(base, kind=kind),
-                              f"{kind} {eq!r} on shape {tuple(sh)}: {detail}")
+        forms = [eq]
+        if list(out) == sorted(i for i in set(t) if t.count(i) == 1) and t:
+            forms.append(txt(t))     # the same equation with its output left implicit
+            ctx.count("single:implicit-output-form")
+        for eqf in forms:
+            for kind in ("single3", "einsum1"):
+                c1 = dict(base, kind=kind, eq=eqf)
+                ok, detail, cls = run_real(c1)
+                if not ok:
+                    bad = True
+                    ctx.violation({"site": "contract.einsum/1" if kind == "einsum1" else "_einsum_single 3-step",
+                                   "class": cls, "implicit": "->" not in eqf}, c1,
+                                  f"{kind} {eqf!r} on shape {tuple(sh)}: {detail}")
         if bad:
             continue
         ctx.traces += 1
@@ -514,7 +520,8 @@ def run_string_forms(ctx, st):
     """two-operand equations written the way numpy accepts them: implicit output, spaces."""
     forms = [("ab,bc", "ab,bc->ac", (2, 3), (3, 2)), ("ba,ac", "ba,ac->bc", (2, 3), (3, 2)),
              ("ab , bc -> ac", "ab,bc->ac", (2, 3), (3, 2)), ("a,a", "a,a->", (3,), (3,)),
-             ("ab,ab", "ab,ab->", (2, 3), (2, 3)), ("a,b", "a,b->ab", (2,), (3,))]
+             ("ab,ab", "ab,ab->", (2, 3), (2, 3)), ("a,b", "a,b->ab", (2,), (3,)),
+             ("cb,ba", "cb,ba->ac", (2, 3), (3, 2)), ("b,a", "b,a->ab", (2,), (3,))]
     for eq, explicit, sa, sb in forms:
         xa, xb = rand_array(st["rs"], sa), rand_array(st["rs"], sb)
         lhs, o = explicit.split("->")
@@ -658,9 +665,24 @@ def run_tensordot(ctx, drv, st, rmax, complete):
                             real = None
                         resp = drv.call("c11.tdeq", axes=axes_json, shape_a=list(sa), shape_b=list(sb))
                         model = resp.get(st["variant"]) if "err" not in resp else None
-                        if "error" in resp or real != model:
-                            ctx.corr_broken("_parse_tensordot_axes_to_matmul differs from the model",
-                                            {"case": case, "real": real, "model": resp})
+                        if "error" in resp:
+                            ctx.corr_broken("driver error in c11.tdeq: " + resp["error"], case)
+                        elif real != model:
+                            # (A) a different plan is fine if the Lean array semantics admits it
+                            ctx.count("plan_differs_from_model")
+                            ok_adm = False
+                            if real is not None and model is not None:
+                                r2 = drv.call("c11.eval2", a=cps(A), b=cps(B), out=cps(O), shape_a=list(sa),
+                                              shape_b=list(sb), data_a=case["a"], data_b=case["b"], plan=real)
+                                val = np.asarray(cmod.tensordot(xa, xb, axes_real))
+                                want = {"shape": list(val.shape), "data": flat(val)}
+                                ok_adm = "error" not in r2 and r2.get("spec") == want and r2.get("value") == want
+                            if ok_adm:
+                                st["admitted"] += 1
+                            else:
+                                ctx.corr_broken("_parse_tensordot_axes_to_matmul differs from the model and is "
+                                                "not admitted by the Lean array semantics",
+                                                {"case": case, "real": real, "model": resp})
 
 
 # ----------------------------------------------------------------------------------------------
